@@ -202,6 +202,9 @@ func bridgeHandle(c map[string]J) map[string]J {
 	if c["kind"] == "scanstr" {
 		return bridgeScanStr(c)
 	}
+	if c["kind"] == "count" {
+		return bridgeCount(c)
+	}
 	dq := c["dq"].(string)
 	v := goValue(c["val"].([]J))
 	input := fmt.Sprintf("double_quotes=%s value=%#v", dq, v)
@@ -478,6 +481,54 @@ func bridgeScanInt(c map[string]J) map[string]J {
 	}
 	if got != v.Int64() {
 		return map[string]J{"status": "mismatch", "input": input, "what": "value stored by Scan", "expected": v.String(), "observed": got}
+	}
+	return map[string]J{"status": "ok", "input": input}
+}
+
+// bridgeCount: np placeholders in the first term, na arguments, a trailer after the end token; through Query, QuerySolution and Exec.
+func bridgeCount(c map[string]J) map[string]J {
+	np, na := jt.Int(c["np"]), jt.Int(c["na"])
+	entry, _ := c["entry"].(string)
+	ph := []string{"[]", "[?]", "[?, ?]"}[np]
+	trailer := map[string]string{"none": "", "layout": " \n", "comment": " % and so on\n", "clause": " cnt_more.", "clause1": " cnt_more(?).", "clause2": "\ncnt_more(?, ?).",
+		"line": "\ntrue.\n", "broken": " cnt_more(."}[c["trailer"].(string)]
+	args := make([]interface{}, na)
+	for i := range args {
+		args[i] = i + 1
+	}
+	p := prolog.New(nil, nil)
+	var text string
+	var err error
+	switch entry {
+	case "query":
+		text = "L = " + ph + "." + trailer
+		var sols *prolog.Solutions
+		if sols, err = p.Query(text, args...); err == nil {
+			if !sols.Next() {
+				if err = sols.Err(); err == nil {
+					err = fmt.Errorf("no answer")
+				}
+			}
+			sols.Close()
+		}
+	case "solution":
+		text = "L = " + ph + "." + trailer
+		err = p.QuerySolution(text, args...).Err()
+	default:
+		text = "cnt_first(" + ph + ")." + trailer
+		err = p.Exec(text, args...)
+	}
+	input := fmt.Sprintf("%s(%q, %d argument(s))", entry, text, na)
+	obs := "ok"
+	if err != nil {
+		obs = "error"
+	}
+	want, _ := c["verdict"].(string)
+	if want == "open" {
+		return map[string]J{"status": "discard", "why": "placeholders spread over several clauses", "input": input}
+	}
+	if obs != want {
+		return map[string]J{"status": "mismatch", "input": input, "what": "count of placeholders and arguments", "expected": want, "observed": fmt.Sprintf("%s (%v)", obs, err)}
 	}
 	return map[string]J{"status": "ok", "input": input}
 }
